@@ -8,9 +8,9 @@ from vlib import Check, Infra, run_tlc, build_harness, run_vh, scratch_dir, para
 # recording modes of `vh cpu record` per property: (mode, events quick, events thorough)
 PLAN = {
     "C01": [("native", 48000, 600000), ("top", 12000, 150000), ("dec", 12000, 100000), ("chain", 16000, 300000), ("prog", 16000, 300000)],
-    "C02": [("any", 40000, 500000), ("chainany", 16000, 300000), ("native", 16000, 200000), ("dec", 8000, 100000), ("prog", 8000, 200000)],
+    "C02": [("irq", 8000, 100000), ("any", 40000, 500000), ("chainany", 16000, 300000), ("native", 16000, 200000), ("dec", 8000, 100000), ("prog", 8000, 200000)],
     "C08": [("top", 48000, 800000), ("any", 24000, 300000), ("chainany", 8000, 200000)],
-    "C12": [("any", 32000, 400000), ("native", 16000, 200000), ("chainany", 16000, 300000)],
+    "C12": [("any", 32000, 400000), ("native", 16000, 200000), ("chainany", 16000, 300000), ("irq", 8000, 100000)],
 }
 
 
